@@ -326,6 +326,16 @@ def _unalias_move(prog, t):
     return t
 
 
+def _unalias_all(prog, t):
+    """_unalias_move applied to every sub-term."""
+    if not isinstance(t, tuple) or not t or t[0] == "const":
+        return t
+    t2 = _unalias_move(prog, t) if isinstance(t[0], str) else t
+    if t2 is not t:
+        return t2
+    return tuple(_unalias_all(prog, x) if isinstance(x, tuple) else x for x in t)
+
+
 def _eq_of(t, pred):
     """t is `param2 == <expr>` (derived PartialEq call or primitive Eq) with pred(expr)."""
     if t[0] == "call" and t[1].endswith("::eq") and len(t[2]) == 2:
@@ -411,6 +421,8 @@ def q3_query_matching(ck):
                 rt = rt[2]
             else:
                 rt = ("opaque", "mismatch predicate of unrecognised form")
+        if rt is not None:
+            rt = _unalias_all(prog, rt)
         ups = closure_upvar_terms(prog, b, cname, tb) or []
         m_up = [i for i, u in enumerate(ups) if u == ("param", 2)]
         mterm = ("field", ("param", 1), str(m_up[0])) if m_up else None
